@@ -828,6 +828,9 @@ func (e *sbEngine) submit(a sbAction) {
 	if len(e.sched.pendingReqCh) != 0 {
 		return // the pending loop is still busy with an earlier (cancelled) request; nothing can be concluded
 	}
+	if r.cancelled {
+		return // the client gave up while the scheduler was evaluating the runner for it (AtPing): it need not be served
+	}
 	if reuse != nil {
 		e.flag("reuse_checked")
 		if r.granted != reuse {
